@@ -209,6 +209,18 @@ def _run(mod, pid, tier, seed, shard, nshards, budget, rec):
             prop()
         except PropertyViolation:
             return
+        except BaseException as exc:  # noqa
+            # Hypothesis reports "flaky" when a failing case passes on re-execution.  With a violation on record this means the
+            # library's behaviour depends on what ran before in the process (hidden global state) - itself a violation of the
+            # properties; the FIRST violating case is reported (it fails when executed after its predecessors).
+            import hypothesis.errors as he
+
+            flaky = isinstance(exc, (he.Flaky,)) or type(exc).__name__ in ("FlakyFailure", "ExceptionGroup", "BaseExceptionGroup")
+            if flaky and rec.first_violation is not None:
+                rec.violation = rec.first_violation
+                rec.extra["flaky_replay"] = "the violating case did not fail again when re-executed in the same process: outcome depends on process history"
+                return
+            raise
         if rec.violation is not None:
             # a violation was seen but did not reproduce in the final replay -> flaky oracle = harness error
             raise RuntimeError("violation did not reproduce: %r" % (rec.violation,))
